@@ -659,6 +659,13 @@ impl JobServerHandle {
         self.state.borrow().is_running()
     }
 
+    /// Reports whether this process created the jobserver (as opposed to
+    /// having inherited it from its parent).
+    #[inline]
+    pub(crate) fn is_top_level(&self) -> bool {
+        self.params.top_level != 0
+    }
+
     /// Start a new job.
     ///
     /// # Panics
